@@ -69,6 +69,10 @@ func build(c batchCase) ([]modbus.BuilderRequest, error) {
 	in := make([]modbus.Field, len(c.Fields), len(c.Fields)+4)
 	copy(in, c.Fields)
 	b := modbus.NewRequestBuilder("", 0)
+	if len(c.Fields)%3 == 2 {
+		// a builder with defaults of its own: complete definitions handed to AddAll (unit id 0 and all) are not subject to them
+		b = modbus.NewRequestBuilder("default-target:502", 7)
+	}
 	if c.Rebuilds > 0 {
 		b.AddAll(in)
 		_, _ = buildTarget(b, (c.Target+4)%8)
